@@ -421,6 +421,8 @@ def direct_oracle(ctx, env, full, nperm, only=None):
     for f, data, synth in items:
         if only and f != only:
             continue
+        if len(ctx.violations) >= 8:          # enough concrete failing inputs
+            break
         ext = os.path.splitext(f)[1].lower()
         kind = SAMPLE_EXT.get(ext)
         if kind is None:
@@ -579,7 +581,7 @@ def search(ctx, broken):
                         want = "ok " + ((easy[kind].__name__ if kind in easy else kind) if ez else kind)
                         ctx.oracle_cases += 1
                         ctx.case(None)
-                        if got != want:
+                        if got != want and len(ctx.violations) < 12:
                             ctx.violation("oracle", "%s: File%s chose %s for a synthetic %s head named %s" % (kind, "(easy=True)" if ez else "", got, h[:8].hex(), e),
                                           {"runner": "c18.synthetic", "kind": kind, "head": h.hex(), "name": nm, "easy": ez, "got": got, "expected": want})
     ctx.notes["search"] = "full direct oracle (all samples x all usual extensions x 5-step histories x 8 permutations) and synthetic heads found %d failing inputs" % (
